@@ -340,6 +340,11 @@ def _parser():
 def _attach(inst):
     name = inst["action"]
     syms, wants = _actions()[name]
+    if not hasattr(_parser(), name):
+        # the grammar actions were renamed or merged: this unit harness has nothing to call (the layout gates drive the parser through
+        # its public entry point and do not depend on action names)
+        return dict(paths=0, cut=0, timeouts=0, queries=0, unsat=0, sat=0, undecided=0, violations=[], known=[], errors=[], nontrivial=False,
+                    notes=[f"parser action {name} does not exist in this tree; covered by the layout gates only"])
     n = len(syms)
     P = [z3.Int(f"p{i + 1}") for i in range(n)]
     lens = [len(s) if isinstance(s, str) else 1 for s in syms]
@@ -404,6 +409,41 @@ def _layout_programs():
         progs.append((f"export function f(int q) -> int {{\n\t int {name} = q;\n\n  {{ float\t{name}\n = 2.0; }} return 1; }}", name, "initialised", True))
         progs.append((f"export function f(int q,\n   float {name}) -> int {{ int k;\n\tint\n\n {name}2; return {name}2; }}", name, "no-redeclaration", False))
     return progs
+
+
+TOKEN_PROGRAMS = [
+    "export function f(int k, int total) -> int { ++k; k++; --total; total--; k = k + total++; for (int i = 0; i < k; ++i) { total += i--; } return k * total; }",
+    "struct S { int i; float3 v; } S g; export function f(float3 a, int[4] arr, int i) -> float { S s; s.v = a; s.v.x = a.zyx.y; arr[i] = arr[arr[0]] + 1; g.i = arr[2]; "
+    "float4 q = float4(a, 1.5f); return s.v.x + q.w + g.i + float(i); }",
+    "function h(int a, float b) -> float { return a * b; } export function f(int n, float x) -> float { float r = 0.0; int c = 0; while (c < n) { if (c == 2 || x > 1.0 && n != 3) "
+    "{ r = r + h(c, x); } else r -= 0x10; c = c + 1; } do { r = r / 2.0; c--; } while (c > 0) return r + 017; }",
+    "export function f(float3x3 m, float3 v, int i) -> float3 { float3 r = m * v; m[i][1] = v.y; r.xy = v.zx; float3[2] arr; arr[i % 2] = m[i]; return r + arr[0] * 2.0 - m[2]; }",
+]
+
+_TOKEN = re.compile(r"\s*(0[xX][0-9a-fA-F]+|[0-9]+\.[0-9]*(?:[eE][-+]?[0-9]+)?[fF]?|\.[0-9]+[fF]?|[0-9]+(?:[eE][-+]?[0-9]+)?[fF]?|[A-Za-z_][A-Za-z_0-9]*|->|\+\+|--|\+=|-=|\*=|/=|==|!=|<=|>=|&&|\|\||.)")
+
+
+def _token_layout_programs():
+    """whole-language programs re-spelled with every pair of adjacent tokens separated by nothing (where the lexer allows it), a blank,
+    a tab, a line break, or a mixture: every leaf of the located tree must still designate its own spelling"""
+    import random as _random
+    out = []
+    for pi, text in enumerate(TOKEN_PROGRAMS):
+        toks = [t for t in _TOKEN.findall(text) if t.strip()]
+        out.append((text, f"tokens #{pi} as written"))
+        for name, sep in (("blank", " "), ("two blanks", "  "), ("tab", "\t"), ("line break", "\n"), ("blank line", "\n\n"), ("line break and indentation", "\n    ")):
+            out.append((sep.join(toks), f"tokens #{pi} separated by {name}"))
+        rnd = _random.Random(f"c20-layout/{pi}")
+        for k in range(4):
+            parts = []
+            for a, b in zip(toks, toks[1:] + [""]):
+                parts.append(a)
+                glue = (a[-1:].isalnum() or a[-1:] in "_.") and (b[:1].isalnum() or b[:1] in "_.")
+                merge = (a + b)[:2] in ("++", "--", "+=", "-=", "*=", "/=", "==", "!=", "<=", ">=", "&&", "||", "->", "//", "/*") or a in "+-" and (b[:1] in "+-." or b[:1].isdigit())
+                choices = [" ", "\t", "\n", "  \n ", " \t "] + ([] if glue or merge else ["", ""])
+                parts.append(rnd.choice(choices))
+            out.append(("".join(parts), f"tokens #{pi} mixed separators {k}"))
+    return out
 
 
 def _node_positions(src, name):
@@ -576,6 +616,21 @@ def _layouts(inst):
         b = _check_layout(src, name, diag)
         if b:
             bad.append((kind, b))
+    # every pair of adjacent tokens of whole-language programs separated in several ways
+    accepted = 0
+    for src, label in _token_layout_programs():
+        res["paths"] += 1
+        try:
+            if _pipeline_tree(src) is None:
+                continue
+            accepted += 1
+            tp = _tree_problems(src)
+        except Exception as e:  # noqa: BLE001 -- the front end failing on a re-spelled program is not this property's business
+            continue
+        if tp:
+            bad.append(("token-separators: " + label.split(" ", 2)[2], dict(source=src, name="", tree=tp[:3], note=label)))
+    if not accepted:
+        res["errors"].append("none of the token-separator programs was accepted by the parser (vacuous gate)")
     # one compiler object for a series of texts (a tool that keeps its Compiler): positions must come from the text at hand.
     # The functions are not exported and carry distinct names and no globals, which is what the compiler allows across calls.
     from nsl import Compiler
@@ -663,9 +718,11 @@ def replay(spec):
     if part == "attach":
         # through the public parser: a token sequence in which the action fires, positions from real lexing
         name = inst["action"]
+        # the distance between the two tokens is the one of the counterexample (blanks between operator and identifier)
+        gap = " " * max(0, min(40, inp.get("p2", 0) - inp.get("p1", 0) - (2 if name.endswith("_3") else 4)))
         srcs = {
-            "p_unary_expression_3": ("export function f(int abcd) -> int {   ++abcd; return abcd; }", "abcd", "affix"),
-            "p_unary_expression_4": ("export function f(int abcd) -> int {   abcd--; return abcd; }", "abcd", "affix"),
+            "p_unary_expression_3": ("export function f(int abcd) -> int {   ++" + gap + "abcd; return abcd; }", "abcd", "affix"),
+            "p_unary_expression_4": ("export function f(int abcd) -> int {   abcd" + gap + "--; return abcd; }", "abcd", "affix"),
         }
         if name not in srcs:
             return _attach_concrete(inst, inp)
